@@ -1,12 +1,17 @@
 #!/bin/sh
-# Build the framework from files on disk only (offline): Lean proofs + native model drivers and
-# the Go harnesses (against /repo with the verif hooks) for every registered property.
-# Each ./check rebuilds incrementally what it needs, so this is only a warm-up.
+# Build the framework from files on disk only (offline): regenerate the source facts from /repo,
+# build the Lean proofs + native model drivers for every registered property. Each ./check
+# rebuilds incrementally what it needs (facts, proofs, driver, Go harness), so this is a warm-up.
 set -e
 cd "$(dirname "$0")"
 export GOFLAGS=-mod=mod GOPROXY=off GOSUMDB=off GOTOOLCHAIN=local
 python3 tools/gendriver.py
-mkdir -p bin run replays evidence
+mkdir -p bin run replays evidence lean/Vgi/Generated
+for d in tools/factgen/c[0-9]*; do
+  [ -d "$d" ] || continue
+  id=$(basename "$d" | tr c C)
+  (cd tools/factgen && go1.26 run "./$(basename "$d")" -repo /repo -out "../../lean/Vgi/Generated/$id.lean")
+done
 targets=""
 for f in checks.d/C*.json; do id=$(basename "$f" .json); targets="$targets Vgi.Props.$id vgidriver_$id"; done
 (cd lean && lake build $targets)
